@@ -44,6 +44,9 @@ E == par.E
 R == par.R
 P == par.P
 Stamp(t) == t - (t % P)
+\* frac: the run's clock is model time plus a constant fraction of a second, creation stamps are whole seconds
+Frac == "frac" \in DOMAIN par /\ par.frac
+ExpiredAt(cr, t) == IF Frac THEN t >= cr + E ELSE t > cr + E
 
 NoOp == [kind |-> "none", part |-> "", start |-> 0, calls |-> 0, faults |-> 0, sfault |-> FALSE, scope |-> "", skscope |-> "",
          ikCreated |-> 0, recpart |-> "", op |-> "", reads |-> {}, ikid |-> "", kdecs |-> {}, ikreads |-> 0, ikstores |-> 0, ticked |-> FALSE, refusedParent |-> -1]
@@ -121,7 +124,7 @@ Ms == /\ IsEv("ms")
              wrote == ev.call = "Store" /\ ev.wrote
              dup == wrote /\ Get(ev.id, ev.created) # {}
              \* C04: no IK is created under an SK that was already expired when the creating operation began
-             c04 == IF wrote /\ IsIK(ev.id) /\ ~o.sfault /\ o.start > ev.parent + E THEN {"C04.NoIKUnderExpiredSK"} ELSE {}
+             c04 == IF wrote /\ IsIK(ev.id) /\ ~o.sfault /\ ExpiredAt(ev.parent, o.start) THEN {"C04.NoIKUnderExpiredSK"} ELSE {}
              \* C03: an IK is wrapped only by a system key; an SK only by the KMS
              c03 == IF wrote /\ IsIK(ev.id) /\ ~(Has(role, ev.pkid) /\ role[ev.pkid] = "SK") THEN {"C03.IKWrappedOnlyBySK"} ELSE {}
              c14 == IF dup THEN {"C14.RecordOverwritten"} ELSE {}
@@ -138,7 +141,7 @@ Kms == /\ IsEv("kms")
               flt == ev.fault # "none"
               key == <<o.skscope, ev.kid>>
               skrec == {r \in store : r.kid = ev.kid /\ ~IsIK(r.id)}
-              valid == \E r \in skrec : ~r.revoked /\ now <= r.created + E
+              valid == \E r \in skrec : ~r.revoked /\ ~ExpiredAt(r.created, now)
               \* C20: a system key is unwrapped by the KMS at most once per factory per revoke-check interval
               c20 == IF ev.call = "Dec" /\ ~flt /\ o.skscope # "none" /\ par.fits /\ ~o.ticked /\ valid /\ Has(kdec, key) /\ now <= kdec[key] + R
                      THEN {"C20.KmsUnwrapOncePerInterval"} ELSE {}
@@ -209,20 +212,22 @@ Ret == /\ IsEv("ret")
                      fk == <<o.scope, ev.ikid, c>>
                      lk == <<o.scope, ev.ikid>>
                      \* the freshness of this key in this scope was last renewed by a decrypt (Load by created), not by the encrypt path
-                     dref == Has(fet, fk) /\ fet[fk].dref
+                     \* (the recorded finding), and this scope has not already encrypted under a newer key of the partition: going BACK to an
+                     \* older key is not what the finding describes (keyCache.write moves the latest alias forward only)
+                     dref == Has(fet, fk) /\ fet[fk].dref /\ (~Has(lat, lk) \/ lat[lk] <= c)
                      warm == cached /\ Has(lat, lk) /\ Has(fet, <<o.scope, ev.ikid, lat[lk]>>)
                      f == fet[<<o.scope, ev.ikid, lat[lk]>>]
                  IN (IF ~chainOK THEN {"C02.ChainDurableAtReturn"} ELSE {})
                     \cup (IF ~ev.fresh THEN {"C02.FreshProcessDecrypts"} ELSE {})
                     \cup (IF ev.drkLive > 0 THEN {"C09.DataKeyReleasedBeforeReturn"} ELSE {})
-                    \cup (IF ~o.sfault /\ t > c + E THEN {"C04.NoExpiredIK"} ELSE {})
-                    \cup (IF ~o.sfault /\ ikr # {} /\ t > par0 + E + R
+                    \cup (IF ~o.sfault /\ ExpiredAt(c, t) THEN {"C04.NoExpiredIK"} ELSE {})
+                    \cup (IF ~o.sfault /\ ikr # {} /\ ExpiredAt(par0 + R, t)
                           THEN {IF dref THEN "C04.ParentExpiryBounded/decrypt-refresh" ELSE "C04.ParentExpiryBounded"} ELSE {})
                     \cup (IF o.faults = 0 /\ Stamp(t) > c /\ \E tr \in RevTimes(ev.ikid, c) : t > tr + R /\ sft[ev.p] < tr THEN {"C05.RevokedIKBounded"} ELSE {})
                     \cup (IF o.faults = 0 /\ ikr # {} /\ Stamp(t) > c /\ Stamp(t) > par0 /\ \E tr \in RevTimes(skid, par0) : t > tr + 2 * R /\ sft[ev.p] < tr
                           THEN {IF dref THEN "C05.RevokedSKBounded/decrypt-refresh" ELSE "C05.RevokedSKBounded"} ELSE {})
                     \* C20: latest key of this scope fetched within the interval, not known revoked, not expired => no external call
-                    \cup (IF warm /\ t <= f.at + R /\ ~f.revoked /\ t <= lat[lk] + E /\ o.calls # 0 THEN {"C20.NoCallsWithinInterval"} ELSE {})
+                    \cup (IF warm /\ t <= f.at + R /\ ~f.revoked /\ ~ExpiredAt(lat[lk], t) /\ o.calls # 0 THEN {"C20.NoCallsWithinInterval"} ELSE {})
                     \* C20: a key that this scope never fetched, or fetched longer ago than the interval, is re-read before use
                     \cup (IF cached /\ o.faults = 0 /\ o.ikreads = 0 /\ (~Has(fet, fk) \/ (~fet[fk].revoked /\ t > fet[fk].at + R))
                           THEN {"C20.RereadAfterInterval"} ELSE {})
